@@ -1378,6 +1378,7 @@ func runC18(r *harness.Run) {
 	c18FalseFamily(r)
 	c18LargeLists(r)
 	c18NilArgs(r)
+	c18NilInsert(r)
 }
 
 func c18RunSortFamily(r *harness.Run, c *c18Ctx, workers []*c18W, lists [][]int) {
